@@ -25,6 +25,8 @@ import (
 // Fault describes what the transport does instead of (or with) the semantic answer.
 type Fault struct {
 	Kind string // transport-error | status-500-empty | status-503-nonjson | ok-empty | ok-nonjson | errors-no-data | data-null-errors | fewer-entities | more-entities
+	// Status: HTTP status of the opt-in kind "status-keep-body" (C16; not listed in FaultKinds)
+	Status int
 }
 
 // FaultKinds lists the kinds in a fixed order.
@@ -104,6 +106,14 @@ func (t *Transport) RoundTrip(req *http.Request) (*http.Response, error) {
 			resp = []byte(`{"data":null,"errors":[{"message":"injected failure"}]}`)
 		case "fewer-entities", "more-entities":
 			resp = resizeEntities(resp, fault.Kind == "more-entities")
+		case "status-keep-body": // opt-in (C16): the semantic answer under another HTTP status
+			status = fault.Status
+		case "null-entity": // opt-in (C16): the first entity of an _entities answer is null (entity not found), no errors
+			resp = nullFirstEntity(resp)
+		case "data-and-errors": // opt-in (C16): the semantic answer (data kept) plus a non-empty errors array
+			if len(resp) > 1 && resp[len(resp)-1] == '}' && !bytes.Contains(resp, []byte(`"errors":`)) {
+				resp = append(append([]byte{}, resp[:len(resp)-1]...), `,"errors":[{"message":"injected partial failure"}]}`...)
+			}
 		}
 	}
 	if t.Gate != nil {
@@ -124,6 +134,27 @@ func (t *Transport) RoundTrip(req *http.Request) (*http.Response, error) {
 		}
 	}
 	return &http.Response{StatusCode: status, Status: fmt.Sprintf("%d", status), Body: io.NopCloser(bytes.NewReader(resp)), Header: h, ContentLength: int64(len(resp)), Request: req}, nil
+}
+
+// nullFirstEntity (opt-in fault "null-entity"): numbers are kept textually.
+func nullFirstEntity(resp []byte) []byte {
+	dec := json.NewDecoder(bytes.NewReader(resp))
+	dec.UseNumber()
+	var m map[string]any
+	if dec.Decode(&m) != nil {
+		return resp
+	}
+	data, _ := m["data"].(map[string]any)
+	ents, ok := data["_entities"].([]any)
+	if !ok || len(ents) == 0 {
+		return resp
+	}
+	ents[0] = nil
+	b, err := json.Marshal(m)
+	if err != nil {
+		return resp
+	}
+	return b
 }
 
 func resizeEntities(resp []byte, more bool) []byte {
